@@ -1,7 +1,265 @@
+(* C14 - aligned allocation.  Property theorems only: each is closed by [exact]
+   of a lemma from Proofs.v / ProofsHeap.v / ProofsBump.v and followed by
+   Print Assumptions.  The external allocator (scalable_aligned_malloc /
+   _mm_malloc and the matching free) is the variable [be_malloc]/[be_free]; its
+   contract [be_contract] is an explicit premise.  W = 2^64. *)
 From Common Require Import Prelude.
-From C14 Require Import Model Proofs.
+From C14 Require Import Model Proofs ProofsHeap ProofsBump.
 Local Open Scope Z_scope.
 
-Theorem tmp_guard : forall sizeT n, 0 < sizeT -> max_size sizeT < n -> allocate_guard sizeT n = GLengthError.
-Proof. exact guard_length_error. Qed.
-Print Assumptions tmp_guard.
+(* ---- aligned_allocator<T,A>::allocate: the overflow guard *)
+
+(* n <= max_size(): the product handed to the allocator is the true size *)
+Theorem allocate_no_overflow : forall sizeT n,
+  0 < sizeT -> 0 <= n <= max_size sizeT ->
+  n * sizeT < W /\ wrap (n * sizeT) = n * sizeT.
+Proof. exact no_overflow. Qed.
+Print Assumptions allocate_no_overflow.
+
+(* the guard is tight: every n > max_size() would overflow *)
+Theorem allocate_guard_tight : forall sizeT n,
+  0 < sizeT -> max_size sizeT < n -> W <= n * sizeT.
+Proof. exact overflow_beyond. Qed.
+Print Assumptions allocate_guard_tight.
+
+(* n > max_size(): length_error, decided before any multiplication and before
+   the back end is consulted (the world is returned unchanged) *)
+Theorem allocate_length_error_first :
+  forall ost (be_malloc : ost -> heap -> Z -> Z -> option Z * ost) ndebug
+         (w : world ost) sizeT A n,
+  0 < sizeT -> max_size sizeT < n ->
+  allocate ost be_malloc ndebug w sizeT A n = (ALengthError, w).
+Proof. exact allocate_length_error. Qed.
+Print Assumptions allocate_length_error_first.
+
+(* exactly one of: nullptr (n = 0) / length_error / bad_alloc (the back end
+   returned null for the request n*sizeof(T), A) / a pointer p with A | p, a new
+   live block of extent n*sizeof(T) disjoint from every live block.  Never the
+   assert.  (A = 64 for AlignedVector.) *)
+Theorem allocate_outcomes :
+  forall ost (be_malloc : ost -> heap -> Z -> Z -> option Z * ost) ndebug
+         (w : world ost) sizeT A n,
+  be_contract be_malloc ->
+  0 < sizeT -> 0 <= n -> 0 < A < W -> assert_ok A = true ->
+  match allocate ost be_malloc ndebug w sizeT A n with
+  | (ANull, w') => n = 0 /\ w' = w
+  | (ALengthError, w') => max_size sizeT < n /\ w' = w
+  | (ABadAlloc, w') =>
+      0 < n <= max_size sizeT /\
+      fst (be_malloc (w_be ost w) (w_live ost w) (n * sizeT) A) = None /\
+      w_live ost w' = w_live ost w /\ w_mem ost w' = w_mem ost w
+  | (APtr p, w') =>
+      0 < n <= max_size sizeT /\ 0 < p /\ (A | p) /\ p + n * sizeT <= W /\
+      fresh (w_live ost w) p (n * sizeT) = true /\
+      w_live ost w' = {| b_addr := p; b_size := n * sizeT |} :: w_live ost w /\
+      w_mem ost w' = w_mem ost w
+  | (AAbort, _) => False
+  end.
+Proof. exact allocate_outcomes_stmt. Qed.
+Print Assumptions allocate_outcomes.
+
+(* ---- malloc.h: ALIGN_PTR, isAligned, the assert in alignedMalloc *)
+
+(* for a = 2^k and no wrap: the least multiple of a that is >= p *)
+Theorem align_ptr_spec : forall p k,
+  0 <= k < 64 -> 0 <= p -> p + 2 ^ k - 1 < W ->
+  let a := 2 ^ k in
+  let r := align_ptr p a in
+  (a | r) /\ p <= r < p + a /\ (forall m, (a | m) -> p <= m -> r <= m).
+Proof. exact align_ptr_nowrap. Qed.
+Print Assumptions align_ptr_spec.
+
+(* with wrap the macro yields 0, a pointer below p: the excluded case is real *)
+Theorem align_ptr_wrap : forall p k,
+  0 <= k < 64 -> 0 <= p < W -> W <= p + 2 ^ k - 1 -> align_ptr p (2 ^ k) = 0.
+Proof. exact align_ptr_wraps. Qed.
+Print Assumptions align_ptr_wrap.
+
+Theorem isAligned_spec : forall p a,
+  0 < a < W -> 0 <= p ->
+  exists b, is_aligned p a = Some b /\ (b = true <-> (a | p)).
+Proof. exact is_aligned_pos. Qed.
+Print Assumptions isAligned_spec.
+
+(* the int parameter: a negative alignment is converted to size_t first *)
+Theorem isAligned_negative_int : forall p a,
+  - W < a < 0 -> 0 <= p -> is_aligned p a = Some (p mod (W + a) =? 0).
+Proof. exact is_aligned_neg. Qed.
+Print Assumptions isAligned_negative_int.
+
+Theorem assert_accepts_powers_of_two : forall k, 0 <= k < 64 -> assert_ok (2 ^ k) = true.
+Proof. exact assert_ok_pow2. Qed.
+Print Assumptions assert_accepts_powers_of_two.
+
+(* ---- alignedMalloc / alignedFree *)
+
+(* a returned pointer is non-null, a multiple of the alignment, usable for the
+   full size inside the address space, disjoint from every live block; it
+   becomes a live block and no memory cell changes *)
+Theorem alignedMalloc_spec :
+  forall ost (be_malloc : ost -> heap -> Z -> Z -> option Z * ost) ndebug,
+  be_contract be_malloc ->
+  forall (w : world ost) size align p w',
+  aligned_malloc ost be_malloc ndebug w size align = (AMPtr p, w') ->
+  0 < p /\ p + Z.max 1 size <= W /\ (0 < align -> (align | p)) /\
+  fresh (w_live ost w) p size = true /\
+  w_live ost w' = {| b_addr := p; b_size := size |} :: w_live ost w /\
+  w_mem ost w' = w_mem ost w.
+Proof. exact amalloc_ptr. Qed.
+Print Assumptions alignedMalloc_spec.
+
+(* heap integrity by induction over ANY history of alignedMalloc / alignedFree /
+   stores: the live blocks stay non-null and pairwise disjoint.  h_run = Some
+   means every free in the history named a live block (see the next theorems) *)
+Theorem heap_integrity_history :
+  forall ost (be_malloc : ost -> heap -> Z -> Z -> option Z * ost) be_free ndebug,
+  be_contract be_malloc ->
+  forall ops (w w' : world ost),
+  heap_wf (w_live ost w) ->
+  h_run ost be_malloc be_free ndebug w ops = Some w' -> heap_wf (w_live ost w').
+Proof. exact hrun_wf. Qed.
+Print Assumptions heap_integrity_history.
+
+(* freed exactly once: after alignedFree(p) a second alignedFree(p) is not a
+   valid step; nor is the free of a pointer that is not live *)
+Theorem free_exactly_once :
+  forall ost (be_free : ost -> Z -> ost) (w : world ost) p w',
+  heap_wf (w_live ost w) -> p <> 0 ->
+  aligned_free ost be_free w p = Some w' -> aligned_free ost be_free w' p = None.
+Proof. exact afree_twice. Qed.
+Print Assumptions free_exactly_once.
+
+Theorem free_of_dead_pointer_rejected :
+  forall ost (be_free : ost -> Z -> ost) (w : world ost) p,
+  p <> 0 -> h_find (w_live ost w) p = None -> aligned_free ost be_free w p = None.
+Proof. exact afree_not_live. Qed.
+Print Assumptions free_of_dead_pointer_rejected.
+
+(* no step (malloc, free, store) changes a cell of a block that stays live,
+   except a store into that very block: other allocations are not corrupted *)
+Theorem other_blocks_intact :
+  forall ost (be_malloc : ost -> heap -> Z -> Z -> option Z * ost) be_free ndebug,
+  be_contract be_malloc ->
+  forall (w : world ost) o r w' b a,
+  heap_wf (w_live ost w) ->
+  h_step ost be_malloc be_free ndebug w o = Some (r, w') ->
+  In b (w_live ost w) -> In b (w_live ost w') -> in_block b a ->
+  (forall p off v, o = HWrite p off v -> p <> b_addr b) ->
+  mread (w_mem ost w') a = mread (w_mem ost w) a.
+Proof. exact hstep_integrity. Qed.
+Print Assumptions other_blocks_intact.
+
+(* ---- AlignedVector<T> = std::vector<T, aligned_allocator<T>>: growth as
+   allocate / copy / deallocate *)
+
+(* elements survive reallocation: if the vector owns a live block (or none) and
+   the new capacity holds its elements, the reallocated vector reads back the
+   same elements from a 64-byte aligned (or, for capacity 0, null) data().
+   partial: that every reachable vector owns its block is measured by the
+   differential run (outcome invalid_free / !BADFREE / !LEAK), not proved *)
+Theorem vector_elements_survive_reallocation_partial :
+  forall ost be_malloc be_free ndebug sizeT (w : world ost) v c w' v',
+  be_contract be_malloc -> 0 < sizeT ->
+  heap_wf (w_live ost w) -> 0 <= v_size v <= c ->
+  (v_data v = 0 \/ exists x, h_find (w_live ost w) (v_data v) = Some x) ->
+  v_realloc ost be_malloc be_free ndebug sizeT true w v c = (OOk, w', v') ->
+  v_contents sizeT (w_mem ost w') v' = v_contents sizeT (w_mem ost w) v /\
+  v_size v' = v_size v /\ v_cap v' = c /\ aligned64 v'.
+Proof. exact vrealloc_keeps_stmt. Qed.
+Print Assumptions vector_elements_survive_reallocation_partial.
+
+(* after ANY history of push_back/resize/reserve/shrink_to_fit/assign/clear/swap
+   on two vectors (arguments non-negative, as size_t is): the heap is
+   well-formed, data() is null exactly when capacity() is 0 and otherwise a
+   non-null multiple of 64 *)
+Theorem vector_data_aligned_after_every_history :
+  forall ost be_malloc be_free ndebug sizeT vmax grow (st : ost) ops,
+  be_contract be_malloc -> 0 < sizeT -> grow_ok vmax grow -> Forall vop_wf ops ->
+  let s := vs_run ost be_malloc be_free ndebug sizeT vmax grow (vs_init ost st) ops in
+  heap_wf (w_live ost (s_w ost s)) /\
+  (forall v, v = s_a ost s \/ v = s_b ost s ->
+     0 <= v_size v /\ (v_cap v = 0 -> v_data v = 0) /\
+     (v_cap v <> 0 -> v_data v <> 0 /\ (64 | v_data v))).
+Proof. exact vector_history. Qed.
+Print Assumptions vector_data_aligned_after_every_history.
+
+(* the invariant is inductive, and no vector operation trips the assert *)
+Theorem vector_step_preserves_invariant :
+  forall ost be_malloc be_free ndebug sizeT vmax grow (s : vstate ost) o,
+  be_contract be_malloc -> 0 < sizeT -> grow_ok vmax grow -> vop_wf o -> sinv ost s ->
+  fst (vs_step ost be_malloc be_free ndebug sizeT vmax grow s o) <> OAbort /\
+  sinv ost (snd (vs_step ost be_malloc be_free ndebug sizeT vmax grow s o)).
+Proof. exact vector_step_no_abort. Qed.
+Print Assumptions vector_step_preserves_invariant.
+
+(* ---- the hypotheses are satisfiable: the bump allocator that plays the back
+   end in the differential run meets the contract; libstdc++'s growth policy
+   meets grow_ok *)
+Theorem contract_satisfiable : be_contract bump_malloc.
+Proof. exact bump_contract. Qed.
+Print Assumptions contract_satisfiable.
+
+Theorem gnu_growth_policy_ok : forall sizeT, grow_ok (gnu_vmax sizeT) (gnu_grow sizeT).
+Proof. exact gnu_grow_ok. Qed.
+Print Assumptions gnu_growth_policy_ok.
+
+(* ---- non-vacuity *)
+
+(* sizeof(T) = 12: the last admissible n, the first rejected one, and what the
+   unguarded product would have been (a 8-byte request for > 2^60 elements) *)
+Example guard_boundary_12 :
+  max_size 12 = 1537228672809129301 /\
+  allocate_guard 12 1537228672809129301 = GRequest 18446744073709551612 /\
+  allocate_guard 12 1537228672809129302 = GLengthError /\
+  wrap (1537228672809129302 * 12) = 8 /\
+  allocate_guard 12 0 = GNull.
+Proof. vm_compute. repeat split; reflexivity. Qed.
+
+Example align_ptr_examples :
+  align_ptr 4097 4096 = 8192 /\ align_ptr 4096 4096 = 4096 /\ align_ptr 0 64 = 0 /\
+  align_ptr 1 1 = 1 /\ align_ptr (W - 64) 64 = W - 64 /\ align_ptr (W - 63) 64 = 0.
+Proof. vm_compute. repeat split; reflexivity. Qed.
+
+Example is_aligned_examples :
+  is_aligned 128 64 = Some true /\ is_aligned 96 64 = Some false /\
+  is_aligned 0 64 = Some true /\ is_aligned 130 65 = Some true /\
+  is_aligned 5 0 = None /\ is_aligned (W - 1) (-1) = Some true.
+Proof. vm_compute. repeat split; reflexivity. Qed.
+
+(* all five outcomes of allocate occur (scripted back end; alignment 48 trips
+   the assert, which the theorem excludes by assert_ok A = true) *)
+Example allocate_outcomes_occur :
+  let w0 st := {| w_be := st; w_live := []; w_mem := [] |} in
+  fst (allocate _ scripted_malloc false (w0 (Some 640)) 12 64 0) = ANull /\
+  fst (allocate _ scripted_malloc false (w0 (Some 640)) 12 64 1537228672809129302) = ALengthError /\
+  fst (allocate _ scripted_malloc false (w0 None) 12 64 5) = ABadAlloc /\
+  fst (allocate _ scripted_malloc false (w0 (Some 640)) 12 64 5) = APtr 640 /\
+  fst (allocate _ scripted_malloc false (w0 (Some 640)) 12 48 5) = AAbort.
+Proof. vm_compute. repeat split; reflexivity. Qed.
+
+(* a malloc/free history over the bump back end: interleaved frees, a double
+   free and the free of a never-returned pointer are rejected *)
+Example heap_history_example :
+  let w0 := {| w_be := {| bs_cur := BASE; bs_fail := -1 |}; w_live := []; w_mem := [] |} in
+  let run := h_run _ bump_malloc bump_free false w0 in
+  option_map (fun w => map b_addr (w_live _ w))
+    (run [HMalloc 100 64; HMalloc 1 4096; HWrite 4294967360 99 7; HFree 4294967360; HMalloc 0 1])
+    = Some [4294971393; 4294971392] /\
+  run [HMalloc 100 64; HFree 4294967360; HFree 4294967360] = None /\
+  run [HMalloc 100 64; HFree 4294967424] = None /\
+  run [HMalloc 100 64; HWrite 4294967360 100 7] = None.
+Proof. vm_compute. repeat split; reflexivity. Qed.
+
+(* a vector history with four reallocations (capacity 1,2,4,8), a swap, a
+   shrink and an assign: contents are those of the list model, data() moves and
+   stays a multiple of 64 *)
+Example vector_history_example :
+  let run := vs_run _ bump_malloc bump_free false 12 (gnu_vmax 12) (gnu_grow 12)
+                    (vs_init _ {| bs_cur := BASE; bs_fail := -1 |}) in
+  let s := run [VPush false 1; VPush false 2; VPush false 3; VPush false 4; VPush false 5;
+                VSwap; VShrink true; VAssign false 3 9] in
+  v_contents 12 (w_mem _ (s_w _ s)) (s_b _ s) = [1; 2; 3; 4; 5] /\
+  v_contents 12 (w_mem _ (s_w _ s)) (s_a _ s) = [9; 9; 9] /\
+  v_cap (s_b _ s) = 5 /\ v_data (s_b _ s) mod 64 = 0 /\ v_data (s_a _ s) mod 64 = 0 /\
+  v_data (s_a _ s) <> v_data (s_b _ s) /\ length (w_live _ (s_w _ s)) = 2%nat.
+Proof. vm_compute. repeat split; try reflexivity. discriminate. Qed.
